@@ -11,7 +11,7 @@ First == {[obj |-> "cert", enc |-> "pem", corrupt |-> "none", suffix |-> "none"]
 Second == {it \in Items : it.obj = "cert" /\ it.suffix \in {"none", "der"} /\ it.corrupt \in {"none", "truncated"}}
 OneOK == [obj |-> "cert", enc |-> "pem", corrupt |-> "none", suffix |-> "none"]
 CrlOK == [obj |-> "crl", enc |-> "pem", corrupt |-> "none", suffix |-> "none"]
-Modes == {"json", "pretty", "summary", "longSummary"}
+Modes == {"json", "pretty", "summary", "longSummary", "bothSummaries"}
 \* family A: how inputs are read
 FamA == {[fmt |-> f, chan |-> "stdin", inputs |-> <<it>>, sel |-> "none", cfg |-> "none", mode |-> "json"] : f \in Flags, it \in ItemsNoSuffix}
    \cup {[fmt |-> f, chan |-> "file", inputs |-> <<it>>, sel |-> "none", cfg |-> "none", mode |-> "json"] : f \in Flags, it \in Items}
@@ -19,6 +19,10 @@ FamA == {[fmt |-> f, chan |-> "stdin", inputs |-> <<it>>, sel |-> "none", cfg |-
 \* family B: selection, configuration, output mode
 FamB == {[fmt |-> "pem", chan |-> c, inputs |-> <<it>>, sel |-> s, cfg |-> g, mode |-> m] :
             c \in {"file", "stdin"}, it \in {OneOK, CrlOK}, s \in GoodSel \cup BadSel, g \in GoodCfg \cup BadCfg, m \in Modes}
-MCScenarios == FamA \cup FamB
+\* family C: several inputs reported in one process, every output mode (tables and objects must not run into each other)
+FamC == {[fmt |-> "pem", chan |-> "file", inputs |-> <<a, b>>, sel |-> s, cfg |-> "none", mode |-> m] :
+            a \in {OneOK, CrlOK}, b \in {OneOK, CrlOK}, s \in {"none", "incSources"}, m \in Modes}
+   \cup {[fmt |-> "pem", chan |-> "file", inputs |-> <<OneOK, CrlOK, OneOK>>, sel |-> "none", cfg |-> "none", mode |-> m] : m \in Modes}
+MCScenarios == FamA \cup FamB \cup FamC
 Export == pc = "exited" => PrintT(ToJson([scn |-> scn, printed |-> printed, exit |-> exit]))
 =============================================================================
